@@ -550,8 +550,11 @@ SERVER_SEQUENCES = [
 ]
 # gzip-coded bodies exercise the parser's decompressor carry-over; the decoded body is not compared with the bytes
 GZ = gzip.compress(b'hello world, hello world, hello world', mtime=0)
+# a body that compresses well: while it arrives, the decompressed bytes so far exceed the (compressed) Content-Length early
+GZ2 = gzip.compress(b''.join(b'line %03d: the quick brown fox jumps over the lazy dog\n' % i for i in range(40)), mtime=0)
 SERVER_ENCODED = [
     b'POST /gz HTTP/1.1\r\nHost: h\r\nContent-Encoding: gzip\r\nContent-Length: %d\r\n\r\n%s' % (len(GZ), GZ),
+    b'POST /gz2 HTTP/1.1\r\nHost: h\r\nContent-Encoding: gzip\r\nContent-Length: %d\r\n\r\n%s' % (len(GZ2), GZ2),
 ]
 
 CLIENT_CORPUS = [
@@ -582,6 +585,7 @@ CLIENT_SEQUENCES = [
 ]
 CLIENT_ENCODED = [
     b'HTTP/1.1 200 OK\r\nContent-Encoding: gzip\r\nContent-Length: %d\r\n\r\n%s' % (len(GZ), GZ),
+    b'HTTP/1.1 200 OK\r\nContent-Encoding: gzip\r\nContent-Length: %d\r\n\r\n%s' % (len(GZ2), GZ2),
 ]
 
 
@@ -624,6 +628,7 @@ def corpus_units():
         units.append(('server', [m], {'encoded_body': True}))
     for seq in SERVER_SEQUENCES:
         units.append(('server', [SERVER_CORPUS[i] for i in seq], {}))
+    units.append(('server', [SERVER_ENCODED[1], SERVER_CORPUS[0]], {'encoded_body': True}))   # keep-alive request after a gzip body
     for m in CLIENT_CORPUS:
         units.append(('client', [m], {}))
     for m in CLIENT_ENCODED:
